@@ -55,6 +55,7 @@ fn loaded_obs(kp: &KeyPair, orig: &KeyInfo, req: Option<&'static SignatureAlgori
 	p.serial_number = Some(SerialNumber::from_slice(&[9]));
 	let sig_ok = match guarded(|| p.self_signed(kp)) {
 		Outcome::Ok(c) => project::artefact("cert", c.der(), &orig.spki)["sigOk"].clone(),
+		Outcome::Panic(m) => json!({"ring": "fail", "openssl": "fail", "k": "panic", "err": m}),
 		_ => json!({"ring": "fail", "openssl": "fail"}),
 	};
 	let spki_der = kp.public_key_der();
